@@ -1,7 +1,7 @@
 import KG.Spec.LocalLimiter
-/-! Simulation between the sequential limiter model (`KG.Model.LocalLimiter`) and the judge's bookkeeping
+/-! Simulation between the sequential limiter model (`KG.Model.LocalLimiter`) and the judgeExact's bookkeeping
     (`KG.Spec.LocalLimiter`): the relation `Rel` holds initially and is preserved by every op, and in related
-    states every answer of the model is what the judge demands. -/
+    states every answer of the model is what the judgeExact demands. -/
 namespace KG.Lemmas.LocalLimiter
 open KG KG.Model.MaxInflight KG.Model.LocalLimiter KG.Spec.LocalLimiter
 
@@ -147,7 +147,7 @@ theorem counter_tryAcquire_eq (cnt : Counter) (h : 0 ≤ cnt.count) :
     simp [h2, h3]
 
 
-/-- normal form of the judge's bookkeeping when a request arrives for an existing entry -/
+/-- normal form of the judgeExact's bookkeeping when a request arrives for an existing entry -/
 theorem specAcquire_nf (σ : SState) (c n : Str) (b : Bool) (e : Entry) (hn : n ≠ []) (he : σ.entries c n = some e) :
     (specAcquire σ c n b).reqs = σ.reqs ++ [⟨c, n, b, false⟩] ∧ (specAcquire σ c n b).last = σ.last ∧
     (specAcquire σ c n b).entries = fun c' n' =>
@@ -397,9 +397,9 @@ theorem getOrDefault_eq (w : World) (c n : Str) :
     | none => rfl
     | some x => simp [loadLimiter_eq]
 
-/-- Arrival: the model never panics, its answer is what the judge demands, and the relation is kept. -/
+/-- Arrival: the model never panics, its answer is what the judgeExact demands, and the relation is kept. -/
 theorem acquire_step {w : World} {σ : SState} (h : Rel w σ) (c n : Str) (tb : Bool) :
-    ∃ w' b, acquire w c n tb = .ok (w', b) ∧ check σ (.acquire c n tb) (.acquired b) = true ∧
+    ∃ w' b, acquire w c n tb = .ok (w', b) ∧ checkExact σ (.acquire c n tb) (.acquired b) = true ∧
       Rel w' (specAcquire σ c n b) := by
   have hc := h.core
   unfold acquire
@@ -407,7 +407,7 @@ theorem acquire_step {w : World} {σ : SState} (h : Rel w σ) (c n : Str) (tb : 
   by_cases hn : n = []
   · -- no schema name: the default limiter
     simp only [hn, if_true]
-    refine ⟨_, true, rfl, by simp [check, demand], ?_⟩
+    refine ⟨_, true, rfl, by simp [checkExact, demandExact], ?_⟩
     rw [specAcquire_default σ c [] true (Or.inl rfl)]
     exact ⟨rel_arrive_default hc c [] true, h.last, h.dom2⟩
   · simp only [hn, if_false]
@@ -419,7 +419,7 @@ theorem acquire_step {w : World} {σ : SState} (h : Rel w σ) (c n : Str) (tb : 
         | none => rfl
         | some e => rw [he] at this; simp at this
       simp only [Option.map_none]
-      refine ⟨_, true, rfl, by simp [check, demand, hn, hen], ?_⟩
+      refine ⟨_, true, rfl, by simp [checkExact, demandExact, hn, hen], ?_⟩
       rw [specAcquire_default σ c n true (Or.inr hen)]
       exact ⟨rel_arrive_default hc c n true, h.last, h.dom2⟩
     | some cache =>
@@ -452,7 +452,7 @@ theorem acquire_step {w : World} {σ : SState} (h : Rel w σ) (c n : Str) (tb : 
           · simp only [hfree, if_true]
             refine ⟨_, true, rfl, ?_, ?_⟩
             · have : e.inflight.length < toU32 m := by omega
-              simp [check, demand, hn, he, hgt, hmi, this]
+              simp [checkExact, demandExact, hn, he, hgt, hmi, this]
             · refine rel_arrive_full h c n cache id _ (.counter { cnt with count := cnt.count + 1 }) true e hn hcache hcur hk he rfl ?_ ?_
               · intro cnt' hc'; injection hc' with hc'; subst hc'; exact ⟨m, hcfg ▸ hmi, hmax⟩
               · intro cnt' hc'; injection hc' with hc'; subst hc'
@@ -460,20 +460,20 @@ theorem acquire_step {w : World} {σ : SState} (h : Rel w σ) (c n : Str) (tb : 
           · simp only [hfree, if_false]
             refine ⟨_, false, rfl, ?_, ?_⟩
             · have : ¬ e.inflight.length < toU32 m := by omega
-              simp [check, demand, hn, he, hgt, hmi, this]
+              simp [checkExact, demandExact, hn, he, hgt, hmi, this]
             · refine rel_arrive_full h c n cache id _ (.counter cnt) false e hn hcache hcur hk he rfl hok ?_
               intro cnt' hc'; injection hc' with hc'; subst hc'
               simpa using hcount
         | infinity =>
           have hgt : guessType e.config = .exempt := by rw [← hcfg, ← hty]; rfl
           simp only [Kind.tryAcquire]
-          refine ⟨_, true, rfl, by simp [check, demand, hn, he, hgt], ?_⟩
+          refine ⟨_, true, rfl, by simp [checkExact, demandExact, hn, he, hgt], ?_⟩
           refine rel_arrive_full h c n cache id _ .infinity true e hn hcache hcur hk he rfl hok ?_
           intro cnt' hc'; cases hc'
         | bucket q bb =>
           have hgt : guessType e.config = .tokenBucket := by rw [← hcfg, ← hty]; rfl
           simp only [Kind.tryAcquire]
-          refine ⟨_, tb, rfl, by simp [check, demand, hn, he, hgt], ?_⟩
+          refine ⟨_, tb, rfl, by simp [checkExact, demandExact, hn, he, hgt], ?_⟩
           refine rel_arrive_full h c n cache id _ (.bucket q bb) tb e hn hcache hcur hk he rfl hok ?_
           intro cnt' hc'; cases hc'
 
@@ -1594,15 +1594,15 @@ theorem reset_rel {w : World} {σ : SState} (h : Rel w σ) (c m : Str) : Rel (re
 /-! ### every op, every history -/
 
 theorem step_rel {w : World} {σ : SState} (h : Rel w σ) (op : Op) :
-    check σ op (step w op).2 = true ∧
+    checkExact σ op (step w op).2 = true ∧
       ((step w op).2.isPanic = false → Rel (step w op).1 (specStep σ op (step w op).2)) := by
   cases op with
   | sync c schemas =>
     simp only [KG.Model.LocalLimiter.step]
     cases hs : sync w c schemas with
-    | error e => simp [check, Out.isPanic]
+    | error e => simp [checkExact, Out.isPanic]
     | ok w' =>
-      refine ⟨by simp [check], fun _ => ?_⟩
+      refine ⟨by simp [checkExact], fun _ => ?_⟩
       simp only [specStep]
       exact sync_step h c schemas w' hs
   | acquire c n tb =>
@@ -1611,26 +1611,26 @@ theorem step_rel {w : World} {σ : SState} (h : Rel w σ) (op : Op) :
     exact ⟨hchk, fun _ => hrel⟩
   | release i =>
     simp only [KG.Model.LocalLimiter.step]
-    exact ⟨by simp [check], fun _ => release_step h i⟩
+    exact ⟨by simp [checkExact], fun _ => release_step h i⟩
   | reset c m =>
     simp only [KG.Model.LocalLimiter.step]
-    exact ⟨by simp [check], fun _ => by simp only [specStep]; exact reset_rel h c m⟩
+    exact ⟨by simp [checkExact], fun _ => by simp only [specStep]; exact reset_rel h c m⟩
 
 theorem judgeFrom_run {w : World} {σ : SState} (h : Rel w σ) (k : Nat) (ops : List Op) :
-    judgeFrom σ k ops (run w ops) = none := by
+    judgeExactFrom σ k ops (run w ops) = none := by
   induction ops generalizing w σ k with
-  | nil => simp [judgeFrom]
+  | nil => simp [judgeExactFrom]
   | cons op ops ih =>
     obtain ⟨hchk, hrel⟩ := step_rel h op
     simp only [KG.Model.LocalLimiter.run]
     cases hp : (step w op).2.isPanic with
     | true =>
-      simp only [if_true, judgeFrom, hchk, hp]
+      simp only [if_true, judgeExactFrom, hchk, hp]
     | false =>
-      simp only [Bool.false_eq_true, if_false, judgeFrom, hchk, if_true, hp]
+      simp only [Bool.false_eq_true, if_false, judgeExactFrom, hchk, if_true, hp]
       exact ih (hrel hp) (k + 1)
 
-/-- reachable worlds are related to some bookkeeping state of the judge -/
+/-- reachable worlds are related to some bookkeeping state of the judgeExact -/
 theorem rel_exec {w : World} {σ : SState} (h : Rel w σ) (ops : List Op) : ∃ σ', Rel (exec w ops) σ' := by
   induction ops generalizing w σ with
   | nil => exact ⟨σ, h⟩
